@@ -401,63 +401,99 @@ def _replay_obj(kind, init, steps, k=None):
             'expected_dump': js(steps[-1].get('ref_dump')) if steps else None}
 
 
+# programs are driven in forked worker processes (each with its own servers and event
+# loops); everything that touches ctx happens in the parent, in program order
+_TASK = {}
+
+
+def _drive(j: int):
+    """worker: run task j; returns picklable results only"""
+    t = _TASK
+    kind, i, steps = t['items'][j]
+    f = t['first'](i) if callable(t['first']) else t['first']
+    obs = t['observer'](i) if callable(t['observer']) else bool(t['observer'])
+    try:
+        env, init, sts, problems = run_async(_one_program(
+            t['ctx'], kind, i, steps, t['weights'], f, t['final'], obs,
+            t['interfere'], t['free']), 600.0)
+    except (TimeoutError, RuntimeError) as exc:
+        return {'kind': kind, 'i': i, 'exc': repr(exc), 'stuck': isinstance(exc, TimeoutError),
+                'first': repr(f)[:2000]}
+    # a Coq case: commands and the other connection's changes (labels LCmd / LExt),
+    # up to a command that was not answered
+    pure = sts
+    for n, x in enumerate(sts):
+        if 'cmd' in x and x['out']['cond'] is None:
+            pure = sts[:n]
+            break
+    return {'kind': kind, 'i': i, 'exc': None, 'init': init, 'sts': sts, 'problems': problems,
+            'npure': len(pure), 'case': R.enc_case(env, init, pure) if pure else None}
+
+
+def _results(n: int):
+    import multiprocessing
+    import os
+    jobs = max(1, min(int(os.environ.get('PV_JOBS', '6')), n))
+    if jobs == 1:
+        for j in range(n):
+            yield _drive(j)
+        return
+    with multiprocessing.get_context('fork').Pool(jobs) as pool:
+        yield from pool.imap(_drive, range(n), chunksize=1)
+
+
 def run_programs(ctx, label: str, plan: list, weights: dict, first=None, final=None,
                  observer=None, on_program=None, interfere: float = 0.0, free: bool = False) -> None:
     """plan: [(kind, n_programs, steps)]"""
     cases, keep = [], []
     hist: dict = {}
     stuck = 0
-    for kind, n, steps in plan:
-        for i in range(n):
-            if stuck >= 6:      # every further program would only wait for the watchdog again
-                ctx.extra.setdefault('stopped_early', []).append(f'{label}/{kind} at program {i}')
-                break
-            f = first(i) if callable(first) else first
-            try:
-                env, init, sts, problems = run_async(_one_program(
-                    ctx, kind, i, steps, weights, f, final,
-                    observer(i) if callable(observer) else bool(observer), interfere, free), 600.0)
-            except (TimeoutError, RuntimeError) as exc:
-                is_stuck = isinstance(exc, TimeoutError)
-                stuck += is_stuck
-                ctx.failure('answered' if is_stuck else 'response',
-                            f'{kind}: program {label}/{i} did not finish: {exc!r}',
-                            {'backend': kind, 'label': label, 'index': i, 'first': repr(f)[:2000]},
-                            {'kind': 'program_stuck' if is_stuck else 'writer_refused', 'backend': kind})
+    _TASK.clear()
+    _TASK.update(ctx=ctx, weights=weights, first=first, final=final, observer=observer,
+                 interfere=interfere, free=free,
+                 items=[(kind, i, steps) for kind, n, steps in plan for i in range(n)])
+    for r in _results(len(_TASK['items'])):
+        kind, i = r['kind'], r['i']
+        if stuck >= 6:      # every further program would only wait for the watchdog again
+            ctx.extra.setdefault('stopped_early', []).append(f'{label}/{kind} at program {i}')
+            break
+        if r['exc'] is not None:
+            stuck += r['stuck']
+            ctx.failure('answered' if r['stuck'] else 'response',
+                        f'{kind}: program {label}/{i} did not finish: {r["exc"]}',
+                        {'backend': kind, 'label': label, 'index': i, 'first': r['first']},
+                        {'kind': 'program_stuck' if r['stuck'] else 'writer_refused',
+                         'backend': kind})
+            continue
+        init, sts, problems = r['init'], r['sts'], r['problems']
+        if on_program is not None:
+            on_program(kind, init, sts)
+        for clause, cls, k, st in problems:
+            stuck += clause == 'answered'
+            obs = {'kind': cls, 'backend': kind}
+            all_steps = sts if st in sts else sts + [st]
+            ctx.failure(clause, f'{kind}: step {k} ({st["wire"][:60]!r}): {cls}',
+                        _replay_obj(kind, init, all_steps, k), obs)
+        for s in sts:
+            if 'ext' in s:
+                hist['(other connection) ' + s['ext']['k']] = \
+                    hist.get('(other connection) ' + s['ext']['k'], 0) + 1
                 continue
-            if on_program is not None:
-                on_program(kind, init, sts)
-            for clause, cls, k, st in problems:
-                stuck += clause == 'answered'
-                obs = {'kind': cls, 'backend': kind}
-                all_steps = sts if st in sts else sts + [st]
-                ctx.failure(clause, f'{kind}: step {k} ({st["wire"][:60]!r}): {cls}',
-                            _replay_obj(kind, init, all_steps, k), obs)
-            for s in sts:
-                if 'ext' in s:
-                    hist['(other connection) ' + s['ext']['k']] = \
-                        hist.get('(other connection) ' + s['ext']['k'], 0) + 1
-                    continue
-                key = s['cmd']['k'] + ('.uid' if s['cmd'].get('uid') else '')
-                hist[key] = hist.get(key, 0) + 1
-                ctx.count((kind, s['wire'], repr(R.canon_out(s['out']))),
-                          nontrivial=s['out']['cond'] == 'OK')
-            # a Coq case: commands and the other connection's changes (labels LCmd / LExt),
-            # up to a command that was not answered
-            pure = sts
-            for j, x in enumerate(sts):
-                if 'cmd' in x and x['out']['cond'] is None:
-                    pure = sts[:j]
-                    break
-            if pure:
-                cases.append(R.enc_case(env, init, pure))
-                keep.append((kind, init, pure))
+            key = s['cmd']['k'] + ('.uid' if s['cmd'].get('uid') else '')
+            hist[key] = hist.get(key, 0) + 1
+            ctx.count((kind, s['wire'], repr(R.canon_out(s['out']))),
+                      nontrivial=s['out']['cond'] == 'OK')
+        if r['case'] is not None:
+            cases.append(r['case'])
+            keep.append((kind, init, sts[:r['npure']]))
+    _TASK.clear()
 
     ctx.extra.setdefault('command_histogram', {})[label] = hist
     if keep:
         ctx.sample({'program': [s['wire'].decode('latin-1')[:200] for s in keep[-1][2]][:8],
                     'backend': keep[-1][0]})
-    bad = ctx.run_cases(label, R.HEADER, 'case', cases, 'chk_case', shard=25)
+    bad = ctx.run_cases(label, R.HEADER, 'case', cases, 'chk_case',
+                        shard=max(5, min(25, -(-len(cases) // 8))))
     for i in bad[:5]:
         kind, init, sts = keep[i]
         # which one differs?  if the case built from PyRef's predictions passes,
@@ -699,8 +735,19 @@ def run(ctx) -> None:
         'the session view is modelled as a full resynchronisation after every command',
         'message bytes are abstracted to content ids (byte exactness is C03)',
     ]
+    import os
+    import sys
+    import time as _time
+    _t0 = [_time.time()]
+
+    def _lap(what):
+        if os.environ.get('PV_TIMING'):
+            print(f'[timing] {what}: {_time.time() - _t0[0]:.1f}s', file=sys.stderr)
+        _t0[0] = _time.time()
     ctx.check_proofs(['RefModel/Check'])
+    _lap('check_proofs')
     _flag_cases(ctx)
+    _lap('flag_cases')
     nd = ctx.scale(300, 1600)
     nm = ctx.scale(60, 300)
     run_async(_keyword_tables(ctx))
@@ -708,15 +755,19 @@ def run(ctx) -> None:
         sc = scenarios(kind)
         run_programs(ctx, f'scenarios_{kind}', [(kind, len(sc), 0)], R.C10_WEIGHTS,
                      first=lambda i, sc=sc: sc[i])
+        _lap(f'scenarios_{kind}')
     run_programs(ctx, 'programs', [('dict', nd, 20), ('maildir', nm, 20)], R.C10_WEIGHTS)
+    _lap('programs')
     # the same with a second connection writing in between (monitor: Python reference)
     ni = ctx.scale(40, 250)
     run_programs(ctx, 'interference', [('dict', ni, 16), ('maildir', ni, 16)], R.C10_WEIGHTS,
                  interfere=0.35)
+    _lap('interference')
     # ... and without any discipline after the interference (sequence numbers and '*' of a
     # session that has not been told yet): Coq model only
     run_programs(ctx, 'interference_free', [('dict', ni, 16), ('maildir', ni, 16)], R.C10_WEIGHTS,
                  interfere=0.35, free=True)
+    _lap('interference_free')
 
 
 def replay(ctx, obj) -> int:
